@@ -495,6 +495,33 @@ def edits(root, sm):
             root.insert(0, mk("import", **attrs))
         add("R9:import-%s" % label, 0, f)
 
+    for variant in ("wildcard-first", "wildcard-after-a-key", "wildcard-last-of-three", "through-a-middle-type"):
+        for multi in (False,):        # a '+' multikey merges the values of colliding keys: no rule broken
+            def f(root, variant=variant, multi=multi):
+                b = mk("sectiontype", name="zzcollbase", keytype="identifier")
+                w = mk("multikey" if multi else "key", name="+", attribute="zzmap")
+                for k in ("kcollide", "KCollide"):
+                    d = mk("default", key=k)
+                    d.text = "1"
+                    w.append(d)
+                if variant == "wildcard-first":
+                    b.append(w)
+                    b.append(mk("key", name="zzafter"))
+                elif variant == "wildcard-after-a-key":
+                    b.append(mk("key", name="zzbefore"))
+                    b.append(w)
+                else:
+                    b.append(mk("key", name="zzbefore"))
+                    b.append(mk("multikey", name="zzbefore2"))
+                    b.append(w)
+                root.append(b)
+                base = "zzcollbase"
+                if variant == "through-a-middle-type":
+                    root.append(mk("sectiontype", name="zzcollmid", extends="zzcollbase"))
+                    base = "zzcollmid"
+                root.append(mk("sectiontype", name="zzcollderived", extends=base, keytype="basic-key"))
+            add("R8:derived-keytype-makes-default-keys-collide:%s:%s" % (variant, "multikey" if multi else "key"), 1, f)
+
     def f(root):
         root.append(mk("foo"))
     add("R11:unknown-element", 0, f)
